@@ -68,12 +68,12 @@ def strategy(tier):
 
 # ----------------------------------------------------------------------------------------------
 
-def expect(res, src, exp_dims, exp_labels, new_dims, what, sig, attrs=True):
+def expect(res, src, exp_dims, exp_labels, new_dims, what, sig, attrs=True, placeholder_ok=True):
     """result must hold src's cell at the coordinate restricted to src's dims (dims in new_dims are dropped/replaced).
     An introduced dimension whose target is a single label may keep newaxis' placeholder label None (the
     statement only speaks of axes that travel with data)."""
     exp_labels = [list(l) for l in exp_labels]
-    if hasattr(res, "dims") and tuple(res.dims) == tuple(exp_dims):
+    if placeholder_ok and hasattr(res, "dims") and tuple(res.dims) == tuple(exp_dims):
         for i, d in enumerate(exp_dims):
             if d in new_dims and d not in src.dims and len(exp_labels[i]) == 1 and res.axes[i].size == 1 and res.axes[i].values[0] is None:
                 exp_labels[i] = [None]
@@ -205,7 +205,8 @@ def run_case(case):
             for vform, v in (("list", list(vals_new)), ("array", core.label_array(vals_new))):
                 what = "newaxis('n', values=%s as %s, pos=%d) dims=%s labels=%s" % (vals_new, vform, pos, dims, labels)
                 res = lib(lambda: a.newaxis("n", values=v, pos=pos), what=what, sig={"op": "newaxis"})
-                expect(res, src, pd, labels[:p] + [list(vals_new)] + labels[p:], ["n"], what, {"op": "newaxis"})
+                # labels given to newaxis explicitly must be the labels of the new axis, also when there is just one
+                expect(res, src, pd, labels[:p] + [list(vals_new)] + labels[p:], ["n"], what, {"op": "newaxis"}, placeholder_ok=False)
             done("newaxis:values", [pos], True)
     guard("newaxis", t_newaxis)
 
